@@ -22,10 +22,6 @@ from harness import core
 from props import combine_common as cc
 
 
-def _label(name, c):
-    return name + " " + json.dumps({k: sorted(v) if isinstance(v, set) else v for k, v in c.items()}, sort_keys=True)
-
-
 class _Acc:
     """what is kept of a family once it has been replayed (the export lines themselves are dropped)"""
 
@@ -100,7 +96,7 @@ def run(tier: str) -> int:
     ck.rule = ("scenario = operator x arity x one timeline per source (0..MaxLen elements then completion, error or "
                "nothing, instants 1..MaxT, ties between sources explicit) [x dispose instant]; all tie orders executed by "
                "TLC on OpsCombine.tla; each scenario replayed on the real static and operator forms, hot and cold sources, "
-               "both creation orders; non-trivial = more than one allowed observation (a tie or a completion window "
+               "both creation orders, plain / falsy / hostile-__eq__ element values; non-trivial = more than one allowed observation (a tie or a completion window "
                "matters) or at least one element emitted")
     G3 = ["take_until", "skip_until", "zip_with_iterable"]
     E = "exhaustive"
@@ -163,6 +159,8 @@ def run(tier: str) -> int:
     for x in acc.samples:
         ck.sample(x)
     ck.note("asserted_projection", {
+        "value_profiles": ["plain (str / int, one object per source element)", "falsy (None, 0, '', (), [], {}, 0.0, False)",
+                           "eqall (elements equal to everything)", "eqraises (elements whose == raises)"],
         "compared": ["emitted values (tuple components by identity of the source's element objects) and their instants",
                      "terminal kind and instant; exception object identity",
                      "each source subscribed exactly once at the subscription instant",
